@@ -4,6 +4,18 @@ from props import pm_common as pm
 from props import c05
 
 LEVEL = "proof"
+MANIFEST = dict(
+    claimed=False, reason="check built (theorems proved, oracle and harness run) but five mismatch kinds on the unchanged tree are still being triaged; not claimed until they are repaired or recorded",
+    cat="proof", tech="Coq theorems on what a cycle with a given youngest cell represents + verified checker applied to every returned cycle",
+    text="Coq theorems (all primes, all sizes, any decomposition accepted by the matrix checker): a chain accepted by check_rep (zero boundary, "
+         "youngest cell b) is, while b is unpaired among the first J cells, not homologous in K_J to any chain of older cells (C08_rep_alive); "
+         "from the death cell d on it is homologous to a cycle of older cells (C08_rep_dies); representatives of alive bars with distinct births "
+         "are linearly independent modulo boundaries (C08_alive_reps_independent). Every cycle returned by get_representative_cycles / "
+         "get_representative_cycle(bar) after insertions, removals and swaps, for RU and chain flavours, Z2 and Zp, all column types, is run "
+         "through the extracted check_rep / check_dims (for Zp, where the API returns supports only, through a certified witness on that "
+         "support), and the set of represented births is compared with the certified barcode.",
+    note="Trusted: as C05. Not proved: that the alive representatives span (C08_alive_reps_span_full; counting is compared per run).",
+    ref="DESIGN.md section 4 C08")
 CORRESPONDENCE = c05.CORRESPONDENCE
 TRUSTED = c05.TRUSTED
 ASSUMPTIONS = c05.ASSUMPTIONS + [
